@@ -1061,7 +1061,7 @@ def run_grader_options(ctx, res, cases_obs, rng):
     thorough = ctx['tier'] == 'thorough' or ctx['escalate']
     graders = _graders()
     names = sorted(grader_configs())
-    texts = domain_probe_texts(cases_obs, rng, 150 if thorough else 45)
+    texts = domain_probe_texts(cases_obs, rng, 80 if thorough else 45)
     n = 0
     for ti, base in enumerate(texts):
         for ni, nest in enumerate(NESTINGS):
